@@ -14,7 +14,8 @@
    run (Generated.Regexes, Generated.IndexConsts). *)
 From Apko Require Import Base.Prelude Base.Regex Generated.Regexes Generated.IndexConsts Generated.IndexShapes
   Model.Index Spec.IndexSpec Proofs.IndexProofs Model.IndexCache Proofs.IndexCacheProofs
-  Model.IndexBytes Spec.IndexBytesSpec Proofs.IndexBytesProofs Model.IndexVctx Proofs.IndexVctxProofs.
+  Model.IndexBytes Spec.IndexBytesSpec Proofs.IndexBytesProofs Model.IndexVctx Proofs.IndexVctxProofs
+  Model.IndexWiring Model.IndexCacheFiles Spec.IndexHistSpec Proofs.IndexHistProofs.
 Open Scope string_scope. Open Scope list_scope.
 
 (* With checking on, an accepted archive carries, in its first member, an entry
@@ -496,3 +497,69 @@ Proof.
   change (t ++ String "." "k.rsa.pub")%string with (t ++ ".k.rsa.pub")%string in E.
   apply sapp_inj_r in E. subst t. reflexivity.
 Qed.
+
+(* ---- wave 3: the multi-architecture wiring ----------------------------------------------
+   ResolveWorld of a context loads its own indexes and those of every other entry of its
+   ByArch map (they feed the cross-architecture filter and so steer resolution). With the
+   two ignore-signature arguments as the source has them on this run, for ALL sets of
+   contexts (own key rings, flags, exemptions, any ByArch wiring) and all indexes: whenever
+   the loads succeed, every index that reaches resolution — own or sibling — was authorised:
+   verification off for the request, repository exempted in the context it belongs to, or
+   signed by a key configured there. *)
+Theorem c04_wiring_verifies_every_index : forall ctxs signer,
+  WiringHolds ctxs signer (fun a => match resolve_loads ctxs signer a with Some _ => true | None => false end).
+Proof. exact wiring_model_holds. Qed.
+Print Assumptions c04_wiring_verifies_every_index.
+
+(* what the source says about the two loads and about what APK.GetRepositoryIndexes hands on *)
+Theorem c04_wiring_shape :
+  resolve_own_ignore_arg = "$a.ignoreSignatures" /\ resolve_sibling_ignore_arg = "$a.ignoreSignatures" /\
+  resolve_sibling_receiver = "$other" /\ resolve_sibling_range = "$a.ByArch" /\
+  apk_index_options = ["WithIgnoreSignatures($ignore)"; "WithIgnoreSignatureForIndexes($a.noSignatureIndexes...)"].
+Proof. repeat split; reflexivity. Qed.
+Print Assumptions c04_wiring_shape.
+
+(* a sibling load that ignores signatures (seeded change C04-7) refutes the statement: an
+   unsigned index of another architecture reaches resolution *)
+Theorem c04_wiring_sibling_ignore_refuted :
+  ~ WiringHolds wit_ctxs wit_signer
+      (fun a => match resolve_loads_with wit_ctxs wit_signer "$a.ignoreSignatures" "true" a with Some _ => true | None => false end) /\
+  wiring_tags wit_ctxs wit_signer
+      (fun a => match resolve_loads_with wit_ctxs wit_signer "$a.ignoreSignatures" "true" a with Some _ => true | None => false end)
+    = ["viol:unverified-sibling-index-reaches-resolution"].
+Proof. exact wiring_sibling_ignore_refuted. Qed.
+Print Assumptions c04_wiring_sibling_ignore_refuted.
+
+Theorem c04_wiring_validator_decides : forall ctxs signer ok,
+  wiring_tags ctxs signer ok = [] <-> WiringHolds ctxs signer ok.
+Proof. exact wiring_tags_iff. Qed.
+Print Assumptions c04_wiring_validator_decides.
+
+(* ---- wave 3: local index files rewritten between calls --------------------------------------
+   The local-file branch of the index cache (entry per (repository, verification context):
+   mtime + outcome, a FAILURE remembered like a success, re-read on a later mtime) over every
+   history of rewrites and calls, from any initial files: every version a call returns is one
+   the repository carried and is authorised by that call, and a repository whose version in
+   place is visibly the newest (mtime later than every earlier one) is used only if THAT
+   version is authorised by the call — however often the call is repeated and whatever was
+   cached before. (A rewrite that keeps or lowers the mtime cannot be seen by this protocol;
+   what is returned then is still a version that was verified in the same context.) *)
+Theorem c04_local_rewrites_sound : forall loc arch evs w,
+  FilesHold loc arch w (answered evs (frun loc arch vctx vctx_eqb (ctx_fixed loc arch) w [] evs)).
+Proof. exact files_fixed_holds. Qed.
+Print Assumptions c04_local_rewrites_sound.
+
+Theorem c04_files_validator_decides : forall loc arch evs w,
+  files_tags loc arch w evs = [] <-> FilesHold loc arch w evs.
+Proof. intros. apply files_tags_iff. Qed.
+Print Assumptions c04_files_validator_decides.
+
+(* non-vacuity: good, replaced by a visibly newer unsigned file, loaded twice, repaired *)
+Example c04_local_rewrites_example :
+  let c := {| rc_repos := [0%nat]; rc_keys := ["alice"]; rc_ignore := false; rc_exempt := []; o_err := false; o_got := [] |} in
+  frun (fun _ => "repo") "x86_64" vctx vctx_eqb (ctx_fixed (fun _ => "repo") "x86_64") (fun _ => []) []
+    [ EvRewrite 0%nat {| fv_id := 1%nat; fv_signer := Some "alice"; fv_mtime := 10%N; fv_parses := true |}; EvCall c [];
+      EvRewrite 0%nat {| fv_id := 2%nat; fv_signer := None; fv_mtime := 20%N; fv_parses := true |}; EvCall c []; EvCall c [];
+      EvRewrite 0%nat {| fv_id := 3%nat; fv_signer := Some "alice"; fv_mtime := 30%N; fv_parses := true |}; EvCall c [] ]
+  = [AnsRewrite; AnsCall false [(0%nat, 1%nat)]; AnsRewrite; AnsCall true []; AnsCall true []; AnsRewrite; AnsCall false [(0%nat, 3%nat)]].
+Proof. vm_compute. reflexivity. Qed.
